@@ -270,10 +270,8 @@ pub fn check_compile_load(text: &str) -> (Verdict, bool) {
         Ok(Err(_)) => return (Verdict::Pass, false),
         Err(p) => return (Verdict::Fail(format!("parser:{}", panic_signature(&p)), p), false),
     };
-    // keep C03's subject out: the reference must agree that the text is valid
-    if refparse::parse(text).is_err() {
-        return (Verdict::Pass, false);
-    }
+    // the property quantifies over what the *parser* accepts: whether the reference recogniser agrees
+    // is C03's business and plays no role here
     let r = catch(|| {
         let bc = Translator::compile(&asm);
         let mut m = Machine::new(MachineConfig::default());
